@@ -75,7 +75,7 @@ Lemma link_sk_barrier : C16_Gen.sk_barrier_Guard = ["Guard"]%string.
 Proof. reflexivity. Qed.
 
 (* the model's threshold tests are the property's: len(tasks) >= maxTasks, size >= maxChunkSize *)
-Lemma link_bulk_full m l : bulk_full m l = true <-> m <= Z.of_nat (List.length l).
+Lemma link_bulk_full {A} m (l : list A) : bulk_full m l = true <-> m <= Z.of_nat (List.length l).
 Proof. unfold bulk_full. lia. Qed.
 
 Lemma link_chunk_full m z : chunk_full m z = true <-> m <= z.
@@ -118,3 +118,62 @@ Proof.
   - intro Hin. apply mem_In in Hin. rewrite Hin in H1. discriminate.
   - auto.
 Qed.
+
+(* ---------- the executors' concrete users ---------- *)
+(* sqlx.BulkInserter: const maxBulkRows = 1000 is the threshold of the dbInserter container *)
+Lemma link_maxBulkRows : C16_Gen.maxBulkRows = 1000 /\ max_bulk_rows = C16_Gen.maxBulkRows.
+Proof. split; reflexivity. Qed.
+
+(* dbInserter is the bulk container: append + len test (AddTask), hand the slice over and reset
+   (RemoveAll), one conn.Exec of the joined rows + result handler (Execute) *)
+Lemma link_sk_dbInserter :
+  C16_Gen.sk_db_AddTask = ["append"; "len"; "return"]%string /\
+  C16_Gen.sk_db_AddTask = C16_Gen.sk_bulk_AddTask /\
+  C16_Gen.sk_db_RemoveAll = ["return"]%string /\
+  C16_Gen.sk_db_Execute =
+    ["len"; "return"; "strings.Join"; "strings.Join"; "len"; "strings.Join"; "in.conn.Exec";
+     "in.resultHandler"; "logx.Errorf"]%string.
+Proof. repeat split; reflexivity. Qed.
+
+(* Insert = format + executor.Add; Flush = executor.Flush; the executor is a PeriodicalExecutor *)
+Lemma link_sk_BulkInserter :
+  C16_Gen.sk_bi_Insert = ["format"; "return"; "bi.executor.Add"; "return"]%string /\
+  C16_Gen.sk_bi_Flush = ["bi.executor.Flush"]%string /\
+  C16_Gen.sk_bi_New = ["parseInsertStmt"; "return"; "executors.NewPeriodicalExecutor"; "return"]%string.
+Proof. repeat split; reflexivity. Qed.
+
+(* stat.Metrics: AddTask never asks for a flush (one append, constant return), RemoveAll hands the
+   (tasks, duration, drops) triple over; Add / AddDrop = executor.Add *)
+Lemma link_sk_Metrics :
+  C16_Gen.sk_mc_AddTask = ["append"; "return"]%string /\
+  C16_Gen.sk_mc_RemoveAll = ["return"]%string /\
+  C16_Gen.sk_m_Add = ["m.executor.Add"]%string /\
+  C16_Gen.sk_m_AddDrop = ["m.executor.Add"]%string /\
+  C16_Gen.sk_m_New = ["os.Getpid"; "executors.NewPeriodicalExecutor"; "return"]%string.
+Proof. repeat split; reflexivity. Qed.
+
+(* the dbInserter model used for the large BulkInserter cases cuts a batch off exactly when the LTS's
+   bulk container does (same threshold function), ... *)
+Lemma b_add_threshold mx s x :
+  bs_out (b_add mx s x) = if bulk_full mx (bs_tasks s ++ [x]) then (bs_tasks s ++ [x]) :: bs_out s else bs_out s.
+Proof. unfold b_add. destruct (bulk_full mx (bs_tasks s ++ [x])); reflexivity. Qed.
+
+(* ... and, as a whole, is the sequential projection of the LTS: on scripts small enough to run both
+   (threshold 2 and 3 instead of 1000), it yields the batches of C16.Model.seq_run *)
+Definition lts_batches (mx : Z) (ops : list sop) : list (list nat) :=
+  s_executed (seq_run (mkcfg false mx (fun _ => 0) second) t0 ops).
+Definition big_batches (mx : Z) (ops : list bop) (ticks : list (N * bool * N)) : option (list (list nat)) :=
+  match big_model mx (mkbst [] false false []) ops ticks with
+  | Some s => Some (map (map Pos.to_nat) (rev (bs_out s)))
+  | None => None
+  end.
+
+Lemma big_model_is_seq_projection :
+  big_batches 2 [BIns 1 3; BTick; BTick; BIns 4 2; BTick; BIns 6 1; BFlush; BTick]
+              [(0, true, 0); (0, true, 0); (0, true, 0); (0, true, 0)]%N
+    = Some (lts_batches 2 [SAdd 1; SAdd 2; SAdd 3; STick; STick; SAdd 4; SAdd 5; STick; SAdd 6; SFlush; STick]) /\
+  big_batches 3 [BTick; BIns 1 7; BTick; BFlush; BIns 8 3; BTick; BTick; BIns 11 1; BFlush]
+              [(0, false, 0); (0, true, 0); (0, true, 0); (0, true, 0)]%N
+    = Some (lts_batches 3 [STick; SAdd 1; SAdd 2; SAdd 3; SAdd 4; SAdd 5; SAdd 6; SAdd 7; STick; SFlush;
+                           SAdd 8; SAdd 9; SAdd 10; STick; STick; SAdd 11; SFlush]).
+Proof. split; vm_compute; reflexivity. Qed.
